@@ -243,8 +243,26 @@ def check_C12(tier, seed):
     return res
 
 
+def check_C11(tier, seed):
+    r = random.Random(seed * 7919 + 11)
+    quick = tier == "quick"
+    seqs, gst = V.gen("SeqGen.tla", "SeqGen_sm4.cfg" if quick else "SeqGen_sm5.cfg", "C11", timeout=1500)
+    n_seq = 1500 if quick else 60000
+    n_rand = 700 if quick else 20000
+    scripts = [scen.streamsm_from_seq(q, r, i) for i, q in enumerate(sample(seqs, n_seq, r))]
+    scripts += [scen.streamsm_random(r, len(scripts) + i) for i in range(n_rand)]
+    mcs = [("StreamSM.tla", "MC_StreamSM.cfg")]
+    return generic("C11", tier, seed, mcs, scripts,
+                   [("streamsm", "StreamSMTrace.tla", "StreamSMTrace.cfg")],
+                   ["which control frames (STOP_SENDING, FIN, RESET_STREAM) have arrived is taken from the harness network log plus FrameStats deltas",
+                    "a reset sending half may already be freed by the acknowledgement of the reset: stopped() may then report a closed stream",
+                    "stream-count credit is bounded by the application-visible terminal states of both halves (sound upper bound)"],
+                   extra_cov={"operation_sequences_enumerated_by_tlc": len(seqs), "generator_states": gst})
+
+
 REGISTRY = {
     "C01": check_C01,
+    "C11": check_C11,
     "C12": check_C12,
     "C05": check_C05,
     "C04": check_C04,
@@ -290,4 +308,8 @@ def replay_C12(scripts):
     return generic("C12", "quick", 0, [], scripts, [("recovery", "RecoveryTrace.tla", "RecoveryTrace.cfg")], [], shards=1, probe=2)
 
 
-REPLAY = {"C12": replay_C12, "C05": replay_C05, "C04": replay_C04, "C08": replay_C08, "C01": replay_C01, "C07": replay_C07}
+def replay_C11(scripts):
+    return generic("C11", "quick", 0, [], scripts, [("streamsm", "StreamSMTrace.tla", "StreamSMTrace.cfg")], [], shards=1)
+
+
+REPLAY = {"C11": replay_C11, "C12": replay_C12, "C05": replay_C05, "C04": replay_C04, "C08": replay_C08, "C01": replay_C01, "C07": replay_C07}
